@@ -389,6 +389,9 @@ func (prog Progress) focusedTransform(n datamodel.Node, na datamodel.NodeAssembl
 			return fmt.Errorf("transform: cannot navigate path segment %q at %q because it is beyond the list bounds", seg, prog.Path)
 		}
 		prog.Path = prog.Path.AppendSegment(datamodel.PathSegmentOfInt(n.Length()))
+		if p.Len() > 1 && !createParents {
+			return fmt.Errorf("transform: parent position at %q did not exist (and createParents was false)", prog.Path)
+		}
 		if err := prog.focusedTransform(nil, la.AssembleValue(), p2, fn, createParents); err != nil {
 			return err
 		}
